@@ -10,8 +10,10 @@ def run(ctx: Ctx) -> int:
     from lib import e4_corpus
     nfixed = len([s for s in e4_corpus.C05_FIXED if not __import__("lib.e4_region", fromlist=["tags"]).tags(s)])
     jobs = e4_check.jobs_for(ctx, "c05", n, batch=3, timeout=ctx.pick(240, 1200), total=n + nfixed)
-    jobs += e4_check.jobs_for(ctx, "c05", ctx.pick(6, 30), batch=3, timeout=ctx.pick(120, 600), region="hoist-order", key=KEY_H)
-    jobs += e4_check.jobs_for(ctx, "c05", ctx.pick(6, 30), batch=3, timeout=ctx.pick(120, 600), region="chain-middle", key=KEY_C)
+    for region, key in (("hoist-order", KEY_H), ("chain-middle", KEY_C)):
+        want = ctx.pick(6, 30)
+        have = len(e4_corpus.corpus("c05", want, ctx.seed, region))     # the generator may find fewer programs inside a region
+        jobs += e4_check.jobs_for(ctx, "c05", want, batch=3, timeout=ctx.pick(120, 600), region=region, key=key, total=have)
     ctx.functions_encoded = ["cfg/builder.py: ExprBuilder.generic_visit/visit_IfExp/visit_NamedExpr/visit_Call/visit_UnaryOp, BranchBuilder.visit_BoolOp/visit_Compare/visit_IfExp/visit_UnaryOp/"
                              "generic_visit, CFGBuilder statement visitors (where expressions are built relative to the statement)",
                              "the real check() decides which corpus programs are accepted (concretely)"]
